@@ -50,7 +50,10 @@ def _case(draw):
             # same variables, same constant, one coefficient different: a different constraint that must not be taken for a duplicate
             co2 = dict(co)
             v0 = list(co2)[draw(st.integers(0, len(co2) - 1))]
-            co2[v0] = co2[v0] + draw(st.sampled_from([1, -1, 2, 0.5])) or 3.0
+            if draw(st.integers(0, 2)) == 0:
+                co2[v0] = co2[v0] * (1 + draw(st.sampled_from([9e-6, -9e-6])))      # almost, but not, the same number
+            else:
+                co2[v0] = co2[v0] + draw(st.sampled_from([1, -1, 2, 0.5])) or 3.0
             c2 = dict(c2, g=c2["g"] + [[co2, c]])
         elif plant == "loosened":
             c2 = dict(c2, g=c2["g"] + [[dict(co), c + draw(st.sampled_from([0.5, 1, 2]))]])
